@@ -467,6 +467,13 @@ func (s *Storm) fire(r *rand.Rand, c trace.Call, fail, boom bool, holdUs int64, 
 			c.Data[kx] = &Key{Id: id}
 			d.injected[kx] = true
 		}
+		if keys != nil && r.Intn(6) == 0 {
+			// values of other Go kinds among the injected data (no rule reads them): an array, a typed nil, a func
+			c.Data["karr"] = [3]int64{id, id, id}
+			var np *Key
+			c.Data["knil"] = np
+			c.Data["kfun"] = func() int64 { return id }
+		}
 	}
 	d.callSeq = atomic.AddInt64(&s.seq, 1)
 	g := goid()
